@@ -28,6 +28,7 @@ import scipp.constants  # noqa: F401
 import scippneutron as scn
 from scippneutron.conversion import tof as K
 
+from mc import modstate
 from ref import hp
 from ref import inelastic as ie
 
@@ -156,8 +157,9 @@ def _bit_equal(a: np.ndarray, b: np.ndarray) -> bool:
 class Ctx:
     """Everything that is fixed within one case, with caches of reference quantities."""
 
-    def __init__(self, case, rec):
+    def __init__(self, case, rec, kind_prefix=''):
         self.case, self.rec = case, rec
+        self.kp = kind_prefix  # violation kinds of the call-history family are reported as 'history_<kind>'
         self.mode = case['mode']
         self.eu, self.tu = case['e_unit'], case['tof_unit']
         self.l1u, self.l2u = case['L1_unit'], case['L2_unit']
@@ -202,7 +204,7 @@ class Ctx:
         key = (t, L1, L2, E)
         sub = {'tof': t, 'L1': L1, 'L2': L2, 'E_fixed': E, 'got': got, 'where': where}
         if np.isinf(got):
-            rec.viol(site, 'inf', f'{got} for finite inputs tof={t!r} {self.tu}, L1={L1!r} {self.l1u}, L2={L2!r} {self.l2u}, E={E!r} {self.eu}', **sub)
+            rec.viol(site, self.kp + 'inf', f'{got} for finite inputs tof={t!r} {self.tu}, L1={L1!r} {self.l1u}, L2={L2!r} {self.l2u}, E={E!r} {self.eu}', **sub)
             return
         ref = self._judged.get(key)
         if ref is None:
@@ -233,7 +235,7 @@ class Ctx:
         if kind == 'nan':
             rec.validated += 1
             if not np.isnan(got):
-                rec.viol(site, 'not_nan_unphysical', f'tof={t!r} {self.tu} is before t0 of the fixed leg (L1={L1!r} {self.l1u}, L2={L2!r} {self.l2u}, E={E!r} {self.eu}) but result is {got!r}', **sub)
+                rec.viol(site, self.kp + 'not_nan_unphysical', f'tof={t!r} {self.tu} is before t0 of the fixed leg (L1={L1!r} {self.l1u}, L2={L2!r} {self.l2u}, E={E!r} {self.eu}) but result is {got!r}', **sub)
             else:
                 rec.cls('nan_unphysical')
                 rec.nontrivial += fresh
@@ -247,7 +249,7 @@ class Ctx:
             return
         if np.isnan(got):
             rec.validated += 1
-            rec.viol(site, 'nan_physical', f'tof={t!r} {self.tu} is after t0 of the fixed leg (L1={L1!r} {self.l1u}, L2={L2!r} {self.l2u}, E={E!r} {self.eu}) but result is NaN', **sub)
+            rec.viol(site, self.kp + 'nan_physical', f'tof={t!r} {self.tu} is after t0 of the fixed leg (L1={L1!r} {self.l1u}, L2={L2!r} {self.l2u}, E={E!r} {self.eu}) but result is NaN', **sub)
             return
         if kind == 'illcond':
             rec.cls('illconditioned_skipped')
@@ -258,7 +260,7 @@ class Ctx:
         err = abs(hp.mpf(got) - want)
         self.max_ratio = max(self.max_ratio, float(err / tol))
         if err > tol:
-            rec.viol(site, 'rel_error', f'got {got!r} {self.eu}, reference {float(want)!r}: error {float(err):.3e} > tolerance {float(tol):.3e} ((t-t0)/t0={rel:.3e})', **sub)
+            rec.viol(site, self.kp + 'rel_error', f'got {got!r} {self.eu}, reference {float(want)!r}: error {float(err):.3e} > tolerance {float(tol):.3e} ((t-t0)/t0={rel:.3e})', **sub)
         else:
             rec.cls('finite_judged')
         if E_other_true is not None:
@@ -270,14 +272,14 @@ class Ctx:
             if rt < 0.25:
                 tol2 = tol + 2 * Eo * (1 / (1 - rt) ** 2 - 1)
                 if abs(hp.mpf(got) - true) > tol2:
-                    rec.viol(site, 'conservation', f'flight Ei/Ef gives {float(true)!r} {self.eu}, got {got!r} (tolerance {float(tol2):.3e})', **sub)
+                    rec.viol(site, self.kp + 'conservation', f'flight Ei/Ef gives {float(true)!r} {self.eu}, got {got!r} (tolerance {float(tol2):.3e})', **sub)
                 else:
                     rec.cls('conservation_judged')
                     rec.cls('elastic' if true == 0 else ('energy_loss' if true > 0 else 'energy_gain'))
 
     def check_meta(self, site, res, what):
         if res.unit != sc.Unit(self.eu):
-            self.rec.viol(site, 'wrong_unit', f'{what}: unit {res.unit}, supplied energy has {self.eu}')
+            self.rec.viol(site, self.kp + 'wrong_unit', f'{what}: unit {res.unit}, supplied energy has {self.eu}')
         self.rec.cls('result_' + str(res.dtype))
 
 
@@ -461,6 +463,7 @@ def _broadcast_and_convert(ctx: Ctx, Es, L1s, L2s, per_pixel_energy: bool):
 
 
 def run_case(case, rec, _ctx_out=None):
+    modstate.reset(K)  # what an earlier case of the same worker left in the module must not decide this one
     ctx = Ctx(case, rec)
     if _ctx_out is not None:
         _ctx_out.append(ctx)
@@ -471,6 +474,135 @@ def run_case(case, rec, _ctx_out=None):
     _locate_boundaries(ctx, Es, L1s, L2s)
     _broadcast_and_convert(ctx, Es, L1s, L2s, per_pixel_energy=False)
     _broadcast_and_convert(ctx, Es, L1s, L2s, per_pixel_energy=True)
+
+
+# ---------------------------------------------------------------------------------------
+# call-history family: the same instrument (0-d fixed-leg length and 0-d fixed energy whose values are exactly
+# representable in single precision) converted in one precision and then in another, starting from the module state
+# right after import.  The second call is judged at its own bound: what ran before must not cost it accuracy.
+
+HIST_E_MEV = (25.0, 300.0, 0.5)
+HIST_L_M = (30.0, 1.3)
+HIST_OTHER_M = (1.3, 0.1, 30.0)
+HIST_CONFIGS = [(t, e) for t in DTYPES for e in DTYPES]  # (tof dtype, energy dtype)
+REQUIRED_CLASSES = [*REQUIRED_CLASSES, 'history_judged', 'history_single_then_double', 'history_double_then_single',
+                    'history_other_tof_unit_first', 'history_same_bits_as_fresh', 'history_scalar_other_leg',
+                    'history_fresh_judged']
+RULE = RULE + (
+    ' History cases (geometry x energy unit x tof unit x fixed-leg length unit x other leg {0-d, per pixel}): for 3 energies x 2 '
+    'fixed-leg lengths (0-d operands, values exactly representable in float32) every ordered pair predecessor -> judged of the '
+    '4 (tof dtype, energy dtype) configurations, predecessor in the same or in another tof unit, from a clean module state; '
+    'the judged call (and the fresh call alone) is held to its own tolerance.'
+)
+
+
+def _history_cases(tier):
+    out = []
+    for mode in (ie.DIRECT, ie.INDIRECT):
+        for eu in E_UNITS:
+            for tu in T_UNITS:
+                for lfu in L_UNITS[tier]:
+                    for other in ('per_pixel', 'scalar'):
+                        l1u, l2u = (lfu, 'm') if mode == ie.DIRECT else ('m', lfu)
+                        out.append({'kind': 'history', 'mode': mode, 'e_unit': eu, 'tof_unit': tu, 'L1_unit': l1u, 'L2_unit': l2u,
+                                    'other_leg': other, 'tier': tier})
+    return out
+
+
+def _history_call(ctx: Ctx, E, Lf, others, scalar_other):
+    """One kernel call with 0-d fixed-leg length and energy.  Returns (tofs, values[spectrum][tof], others used)."""
+    if scalar_other:
+        others = others[:1]
+    a, b = (Lf, others[0]) if ctx.mode == ie.DIRECT else (others[0], Lf)
+    tofs, truths = [], []
+    for e_mev in E_MEV['quick']:
+        Eo = _cast(float(hp.F(e_mev) * hp.MEV / ctx.efac), ctx.edt)
+        Ei, Ef = (E, Eo) if ctx.mode == ie.DIRECT else (Eo, E)
+        tofs.append(ctx.tof_float(ctx.leg_time(a, ctx.l1u, Ei) + ctx.leg_time(b, ctx.l2u, Ef)))
+        truths.append(Eo)
+    t0 = ctx.t0(a, b, E)
+    tofs += [ctx.tof_float(t0 * (1 + hp.F(f))) for f in (-1e-3, 1e-3)] + [0.0]
+    tof = _var(tofs, 'tof', ctx.tu, ctx.tdt)
+    lou = ctx.l2u if ctx.mode == ie.DIRECT else ctx.l1u
+    lfu = ctx.l1u if ctx.mode == ie.DIRECT else ctx.l2u
+    Lo = _var(others[0], None, lou, 'float64') if scalar_other else _var(others, 'spectrum', lou, 'float64')
+    Lfv = _var(Lf, None, lfu, 'float64')
+    L1, L2 = (Lfv, Lo) if ctx.mode == ie.DIRECT else (Lo, Lfv)
+    res = _call(ctx.mode, tof, L1, L2, _var(E, None, ctx.eu, ctx.edt))
+    ctx.rec.transitions += 1
+    want_sizes = {'tof': len(tofs)} if scalar_other else {'spectrum': len(others), 'tof': len(tofs)}
+    if dict(res.sizes) != want_sizes:
+        ctx.rec.viol(ctx.site, ctx.kp + 'shape', f'result sizes {dict(res.sizes)}, expected {want_sizes}')
+        return None
+    vals = res.values.reshape(1, -1) if scalar_other else res.transpose(['spectrum', 'tof']).values
+    return tofs, truths, vals, others, res
+
+
+def _history_judge(ctx: Ctx, E, Lf, out, label):
+    tofs, truths, vals, others, res = out
+    ctx.check_meta(ctx.site, res, label)
+    for s, Lo in enumerate(others):
+        l1, l2 = (Lf, Lo) if ctx.mode == ie.DIRECT else (Lo, Lf)
+        for j, t in enumerate(tofs):
+            true = truths[j] if (s == 0 and j < len(truths)) else None
+            ctx.judge(ctx.site, t, l1, l2, E, float(vals[s, j]), E_other_true=true, where=label)
+
+
+def _run_history(case, rec):
+    tier = case.get('tier', 'quick')
+    scalar_other = case['other_leg'] == 'scalar'
+    alt_unit = T_UNITS[(T_UNITS.index(case['tof_unit']) + 1) % len(T_UNITS)]
+    ctxs, alts = {}, {}
+    for tdt, edt in HIST_CONFIGS:
+        ctxs[tdt, edt] = Ctx({**case, 'tof_dtype': tdt, 'e_dtype': edt}, rec, kind_prefix='history_')
+        alts[tdt, edt] = Ctx({**case, 'tof_dtype': tdt, 'e_dtype': edt, 'tof_unit': alt_unit}, rec, kind_prefix='history_')
+    c0 = ctxs['float64', 'float64']
+    lfu = c0.l1u if c0.mode == ie.DIRECT else c0.l2u
+    lou = c0.l2u if c0.mode == ie.DIRECT else c0.l1u
+    others = [float(hp.F(x) / hp.F(hp.LENGTH[lou])) for x in HIST_OTHER_M]
+    for e_mev in HIST_E_MEV:
+        E = _cast(float(hp.F(e_mev) * hp.MEV / c0.efac), 'float32')  # the same float in both precisions
+        for l_m in HIST_L_M:
+            Lf = _cast(float(hp.F(l_m) / hp.F(hp.LENGTH[lfu])), 'float32')
+            fresh = {}
+            for cfg in HIST_CONFIGS:
+                modstate.reset(K)
+                out = _history_call(ctxs[cfg], E, Lf, others, scalar_other)
+                rec.states += 1
+                if out is None:
+                    continue
+                fresh[cfg] = out[2]
+                _history_judge(ctxs[cfg], E, Lf, out, f'fresh {cfg}')
+                rec.cls('history_fresh_judged')
+            for pred in HIST_CONFIGS:
+                for pred_unit in ('same', 'other'):
+                    for cfg in HIST_CONFIGS:
+                        if pred == cfg and pred_unit == 'same':
+                            continue  # that is the repeat-call check of the layout family
+                        modstate.reset(K)
+                        pctx = ctxs[pred] if pred_unit == 'same' else alts[pred]
+                        _history_call(pctx, E, Lf, others, scalar_other)
+                        out = _history_call(ctxs[cfg], E, Lf, others, scalar_other)
+                        rec.states += 1
+                        if out is None:
+                            continue
+                        label = f'after {pred} ({pred_unit} tof unit) -> {cfg}'
+                        _history_judge(ctxs[cfg], E, Lf, out, label)
+                        rec.cls('history_judged')
+                        rec.nontrivial += 1
+                        if pred == ('float32', 'float32') and cfg == ('float64', 'float64'):
+                            rec.cls('history_single_then_double')
+                        if pred == ('float64', 'float64') and cfg == ('float32', 'float32'):
+                            rec.cls('history_double_then_single')
+                        if pred_unit == 'other':
+                            rec.cls('history_other_tof_unit_first')
+                        if scalar_other:
+                            rec.cls('history_scalar_other_leg')
+                        if cfg in fresh and _bit_equal(np.asarray(out[2]), np.asarray(fresh[cfg])):
+                            rec.cls('history_same_bits_as_fresh')
+                        else:
+                            rec.cls('history_bits_differ_from_fresh')  # allowed by C05 as long as the bound holds (C09 is stricter)
+    modstate.reset(K)
 
 
 # ---------------------------------------------------------------------------------------
@@ -487,11 +619,14 @@ REQUIRED_CLASSES = [*REQUIRED_CLASSES, 'layout_ok', 'reuse_after_inplace_update_
 
 
 def cases(tier):
-    return _cases_main(tier) + _layouts.cases_for(_LAYOUT_SITES, variants=(0, 1, 2, 3, 4) if tier == 'thorough' else (0, 1, 3))
+    return _cases_main(tier) + _history_cases(tier) + _layouts.cases_for(_LAYOUT_SITES, variants=(0, 1, 2, 3, 4) if tier == 'thorough' else (0, 1, 3))
 
 
 def run_case(case, rec):
     if case.get('kind') == 'layout':
+        modstate.reset(K)
         _layouts.run_layout_case(case, rec)
+    elif case.get('kind') == 'history':
+        _run_history(case, rec)
     else:
         _run_case_main(case, rec)
